@@ -484,6 +484,18 @@ func runC03(c *Ctx) {
 		c.parseLine(root, doc, "valid")
 		c.St.Eval(doc, strings.ContainsAny(doc, `\.eE`) || strings.Count(doc, "[")+strings.Count(doc, "{") > 1)
 	}
+	// escapes the strict grammar rejects or that denote no Unicode string: truncated \u, bad hex, lone surrogates,
+	// a backslash before the closing quote, unknown escapes; and the lenient repairs (missing comma after a nested value)
+	for _, body := range []string{`\u12`, `\u`, `\u123`, `\u12G4`, `\ud800`, `\udc00`, `\ud800x`, `\ud800\u0041`, `\udc00\ud800`, `\ud83d\ud83d\ude00`, `\x41`, `\a`, `\'`, `\0`,
+		`a\`, `\\\`, `\ud800\`, `\ude00\ud83d`, `\uD800\uDBFF`, `ok\u00e9`} {
+		c.parseLine('L', `["`+body+`"]`, "-")
+		c.parseLine('L', `["`+body+`","x"]`, "-")
+		c.parseLine('O', `{"`+body+`":1}`, "-")
+		c.parseLine('O', `{"k":"`+body+`"}`, "-")
+	}
+	for _, doc := range []string{`{"a":[1]"b":2}`, `{"a":{}"b":2}`, `{"a":[1] "b":2}`, `{"a":[1]x}`, `{"a":[1],}`, `{"a":[1]}}`, `[[1]2]`, `[{}"x"]`, `{"a":[1]:}`} {
+		c.parseLine("LO"[map[bool]int{true: 0, false: 1}[doc[0] == '[']], doc, "-")
+	}
 	// number spellings one by one
 	for _, n := range []string{"0", "-0", "1", "-1", "10", "9223372036854775807", "-9223372036854775808", "9223372036854775808", "-9223372036854775809",
 		"0.0", "-0.0", "1.0", "1e0", "1E0", "1e+0", "1e-0", "0e0", "1.5e300", "1e308", "1.7976931348623157e308", "5e-324", "4.9e-324", "2.4703282292062328e-324", "1e-400",
